@@ -25,7 +25,8 @@ B. (C15, C17) the shape of the language server's cache (internal/lsp/cache), the
                     a use of a map field that is not a direct method call is listed with method "<escapes>";
      cache_calls    calls of other functions of the package (compositions of atomic operations);
      cache_inplace  every write through a slice or map: `x[:0]`-style reslicing, element assignment `x[i] = v`,
-                    `delete(x, k)`, `clear(x)`, in-place sorts, `copy(x, ...)`, with the written variable and whether
+                    `delete(x, k)`, `clear(x)`, in-place sorts, `copy(x, ...)`, `slices.DeleteFunc(x, ..)` and the like, with the written
+                    variable and whether
                     that variable is a fresh local of the function (`x := make(...)`, `x := T{...}`, `var x T`);
      lsp_cache_rmw  for every function of internal/lsp/*.go: pairs Get<X> ... Set<X> (or Set<X>ForRules) of the same
                     cache item called in one function, i.e. read-modify-write sequences made OUTSIDE the cache.
@@ -160,6 +161,8 @@ INPLACE = [
     ('copy', re.compile(r'(?<![\w.])copy\(([A-Za-z_]\w*)')),
     ('sort', re.compile(r'\b(?:sort\.(?:Slice|SliceStable|Strings|Ints|Sort|Stable)|slices\.(?:Sort|SortFunc|SortStableFunc|Reverse))\(([A-Za-z_]\w*)')),
     ('appendprefix', re.compile(r'\bappend\(([A-Za-z_]\w*)\[\s*:[^\]]*\]')),
+    ('slicesinplace', re.compile(r'\bslices\.(?:DeleteFunc|Delete|Compact|CompactFunc|Insert|Replace)\(([A-Za-z_]\w*)')),
+    ('mapsinplace', re.compile(r'\bmaps\.(?:DeleteFunc|Copy|Insert)\(([A-Za-z_]\w*)')),
 ]
 
 
